@@ -6,6 +6,7 @@
 #include <etl/_type_traits/common_type.hpp>
 #include <etl/_type_traits/is_integral.hpp>
 #include <etl/_type_traits/is_same.hpp>
+#include <etl/_type_traits/make_unsigned.hpp>
 
 namespace etl {
 
@@ -22,7 +23,13 @@ template <typename M, typename N>
     if (m == M(0) or n == N(0)) {
         return common_type_t<M, N>(0);
     }
-    return (m * n) / gcd(m, n);
+    using R = common_type_t<M, N>;
+    using U = make_unsigned_t<R>;
+
+    // |m| / gcd * |n|: dividing first keeps every intermediate value <= the result
+    auto const a = etl::detail::gcd_abs<U>(m);
+    auto const b = etl::detail::gcd_abs<U>(n);
+    return static_cast<R>(static_cast<U>(a / etl::gcd(a, b)) * b);
 }
 
 } // namespace etl
